@@ -1,11 +1,19 @@
 /-
-  C08, Tie 1: the Link/Resolve theorems instantiated at the `Link` variant that the tree under test contains
-  (`Generated.C08.linkFixed`, extracted from cache.go on every run).  They compile only while the tree has the
-  repaired `Link` (fix 834f6be9a): if the in-place copy comes back, `linkFixed` regenerates to `false`, these
-  stop type-checking and the check reports the lost obligation (next to the L2 replay of F8 itself).
+  C08, Tie 1 (facts regenerated from the tree under test on every run, consumed by `decide`):
+
+  * `Generated/C08_LinkVariant.lean`: which `Link` the tree contains (`linkFixed`: temp + rename, fix 834f6be9a;
+    `linkZeroCheck`: zero-length refusal of proposed_fixes/C08-F8-zero.patch).  The Link/Resolve theorems below are
+    instantiated at that variant and compile only while the tree has the repaired `Link`: if the in-place copy comes
+    back, `linkFixed` regenerates to `false`, they stop type-checking and the check reports the lost obligation
+    (next to the L2 replay of F8 itself).
+  * `Generated/C08_NameChars.lean`: the bytes the real `names.isValidPart` accepts first / later in a part of each
+    kind, its length limits, position independence — obtained by executing it (TestVerifC08NameTable).  They must be
+    exactly the model's `isAlnumU` / `restC` / `Part.maxLen`, which is what `nameToPath_safe` (⇒ `link_confined`:
+    a name never denotes a file outside manifests/<h>/<n>/<m>/<t>) is proved from.
 -/
 import OllamaVerif.Properties.C08
 import OllamaVerif.Generated.C08_LinkVariant
+import OllamaVerif.Generated.C08_NameChars
 namespace OllamaVerif.Tie.C08
 open OllamaVerif OllamaVerif.BlobCache OllamaVerif.Generated.C08
 
@@ -18,27 +26,49 @@ theorem tree_link_then_resolve (hash : Bytes → Digest) (k : Disk) (name : Byte
     (hat : splitNameDigest name = (name, []))
     (hp : nameToPath name = some want)
     (hb : k.blob d = some f) (hh : hash f = d) :
-    (link hash linkFixed k name d).2 = .ok ∧
-    (resolve hash (link hash linkFixed k name d).1 name).2 = .digest d := by
+    (linkZ hash linkZeroCheck linkFixed k name d).2 = .ok ∧
+    (resolve hash (linkZ hash linkZeroCheck linkFixed k name d).1 name).2 = .digest d := by
   rw [tree_link_is_fixed]
-  exact OllamaVerif.C08.link_then_resolve_fixed hash k name d f want hat hp hb hh
+  exact OllamaVerif.C08.linkZ_then_resolve_fixed hash linkZeroCheck k name d f want hat hp hb hh
 
-/-- **Link links only verified bytes, for the tree's `Link`** -/
+/-- **Link links only verified bytes, for the tree's `Link`** (empty file still linkable while the zero-length
+    refusal is not in the tree: finding F8-zero) -/
 theorem tree_link_requires_blob (hash : Bytes → Digest) (k : Disk) (name : Bytes) (d : Digest)
-    (hok : (link hash linkFixed k name d).2 = .ok) :
+    (hok : (linkZ hash linkZeroCheck linkFixed k name d).2 = .ok) :
     ∃ f, k.blob d = some f ∧
       (f = [] ∨ hash f = d ∨
         ∃ want g, nameToPath name = some want ∧ manGet k.mans (manifestPathOf k.mans want) = some g ∧ hash g = d) := by
   rw [tree_link_is_fixed] at hok
-  exact OllamaVerif.C08.link_requires_blob_fixed hash k name d hok
+  exact OllamaVerif.C08.link_requires_blob_fixed hash k name d
+    (OllamaVerif.C08.linkZ_ok hash linkZeroCheck true k name d hok).2
 
 /-- the F8 history on the tree's `Link`: the second Link takes effect -/
 theorem tree_relink_same_size_takes_effect :
     let A : Bytes := [1, 1, 1]
     let B : Bytes := [2, 2, 2]
-    (runOps OllamaVerif.C08.idh linkFixed
+    (runOps OllamaVerif.C08.idh linkFixed linkZeroCheck
       [.put A 3 ⟨[A], .eof⟩, .put B 3 ⟨[B], .eof⟩, .link OllamaVerif.C08.nm A, .link OllamaVerif.C08.nm B,
        .resolve OllamaVerif.C08.nm] Disk.empty).2
       = [.res .ok, .res .ok, .res .ok, .res .ok, .digest B] := by decide
+
+def bytesWhere (p : UInt8 → Bool) : List Nat := (List.range 256).filter fun b => p (UInt8.ofNat b)
+
+/-- first bytes the real `isValidPart` accepts = the model's `isAlnumU`, for all four kinds -/
+theorem name_first_chars_match :
+    firstChars = (List.range 4).map (fun k => (k, bytesWhere isAlnumU)) := by decide +kernel
+
+/-- later bytes the real `isValidPart` accepts = the model's `restC kind` -/
+theorem name_rest_chars_match :
+    restChars = (List.range 4).map (fun k => (k, bytesWhere (restC (Part.ofIdx k)))) := by decide +kernel
+
+/-- length limits (accepted lengths are the interval [0, max]) and position independence of the later bytes -/
+theorem name_len_limits_match :
+    lenLimits = (List.range 4).map (fun k => (k, (Part.ofIdx k).maxLen, 1, 1)) := by decide
+
+/-- read off the regenerated table itself: the real code accepts no `/` anywhere and no `.` first -/
+theorem name_accepted_bytes_safe :
+    (firstChars ++ restChars).all (fun e => e.2.all fun b => b != 47) = true ∧
+    firstChars.all (fun e => e.2.all fun b => b != 46) = true := by
+  constructor <;> decide +kernel
 
 end OllamaVerif.Tie.C08
